@@ -71,6 +71,15 @@ def programs():
     add("unassigned-free-variable", "def outer():\n    def inner():\n        return y\n    if False:\n        y = 1\n    return inner\nG = outer()\n" + T + "    print(G)\n")
     add("self-containing-list", "X = [1]\nX.append(X)\n" + T + "    print(len(X))\n",
         [("element", "referenced", {"BUILD.dawn": "X = [2]\nX.append(X)\n" + T + "    print(len(X))\n"})])
+    bm = "G = %s\n" + T + "    print(G(%s))\n"
+    add("bound-method-of-dict", bm % ("{\"a\": 1}.get", "\"a\""), [("receiver-contents", "referenced", {"BUILD.dawn": bm % ("{\"a\": 2}.get", "\"a\"")})])
+    add("bound-method-of-list", bm % ("[1, 2, 3].index", "2"), [("receiver-contents", "referenced", {"BUILD.dawn": bm % ("[2, 1, 3].index", "2")})])
+    big = "BIG = list(range(%s))\n" + T + "    print(len(BIG), BIG[-1])\n"
+    add("list-batch-boundary", big % "1000", [("grown-by-one", "referenced", {"BUILD.dawn": big % "1001"})])
+    add("list-batch-boundary-2", "BIG = [0] * 1000 + [%s] + [0] * 1200\n" % "1" + T + "    print(BIG[1000])\n",
+        [("element-1000", "referenced", {"BUILD.dawn": "BIG = [0] * 1000 + [%s] + [0] * 1200\n" % "2" + T + "    print(BIG[1000])\n"})])
+    add("set-batch-boundary", "S = set(range(%s))\n" % "1000" + T + "    print(len(S))\n",
+        [("grown-by-one", "referenced", {"BUILD.dawn": "S = set(range(%s))\n" % "1001" + T + "    print(len(S))\n"})])
     add("helper", "def helper():\n    return 3\n" + T + "    print(helper())\n",
         [("helper-body", "referenced", {"BUILD.dawn": "def helper():\n    return 4\n" + T + "    print(helper())\n"})], corrupt=True)
     add("loaded-helper", "load(\"//:lib.dawn\", \"helper\")\n" + T + "    print(helper())\n",
